@@ -54,7 +54,10 @@ def main():
         os.rmdir(wt)
         row = {"id": sid, "property": prop}
         try:
-            rc, out = sh(["git", "-C", REPO, "worktree", "add", "--detach", wt, "HEAD"])
+            # (a change that a later "fix:" commit neutralised or rewrote is judged on the revision it was written for)
+            rc, out = sh(["git", "-C", REPO, "worktree", "add", "--detach", wt, meta.get("base_rev") or "HEAD"])
+            if meta.get("base_rev"):
+                row["base_rev"] = meta["base_rev"]
             if rc:
                 print(out)
                 row["status"] = "WORKTREE-FAILED"
@@ -100,6 +103,10 @@ def main():
             tmpd = tempfile.mkdtemp(prefix="seedev_", dir="/tmp")
             cenv = dict(os.environ, VERIF_REPO=wt, VERIF_EVIDENCE_DIR=os.path.join(tmpd, "ev"),
                         VERIF_REPLAY_DIR=os.path.join(tmpd, "rp"))
+            if row.get("base_rev"):
+                # the older revision still has the mass-failure defect repaired by 4928b9e: the cases that exist to
+                # find that defect are left out, so that the seeded change is judged on its own
+                cenv["VERIF_NO_MASS_FAILURE"] = "1"
             caught_by = []
             for pr in [prop] + [a for a in also if a != prop]:
                 t0 = time.time()
